@@ -106,8 +106,9 @@ class Run:
         }
         if self.known_hits:
             ev["coverage"]["known_findings_hit"] = {k: v[0] for k, v in self.known_hits.items()}
-        os.makedirs(os.path.join(VERIF, "evidence"), exist_ok=True)
-        with open(os.path.join(VERIF, "evidence", f"{self.pid}.json"), "w") as f:
+        evdir = os.environ.get("VERIF_EVIDENCE_DIR") or os.path.join(VERIF, "evidence")   # seeded runs write elsewhere
+        os.makedirs(evdir, exist_ok=True)
+        with open(os.path.join(evdir, f"{self.pid}.json"), "w") as f:
             json.dump(ev, f, indent=1, default=_jd)
         for key, (n, what) in self.known_hits.items():
             print(f"KNOWN-FINDING: property={self.pid} {key}: {what} ({n} cases this run)")
